@@ -17,6 +17,11 @@ CTransactionRef parse_tx(const char* p) {
     CDataStream ss(txData, SER_DISK, 0);
     CMutableTransaction mtx;
     UnserializeTransaction(mtx, ss);
+    if (!ss.empty()) {
+        // a transaction followed by further bytes is not a transaction encoding: do not silently use the first part
+        fprintf(stderr, "transaction hex has %zu trailing byte(s) after the transaction\n", (size_t)ss.size());
+        return nullptr;
+    }
     CTransactionRef tx = MakeTransactionRef(CTransaction(mtx));
     return tx;
 }
